@@ -501,6 +501,29 @@ def is_spawn(c):
     return False
 
 
+def _closures_behind(crate, f, l, depth=0, seen=None):
+    """closure ids whose value reaches local l through casts / refs / copies (trait-object coercions)"""
+    seen = seen if seen is not None else set()
+    if l is None or l in seen or depth > 8:
+        return set()
+    seen.add(l)
+    out = set()
+    ty = f.local_ty(l)
+    m = re.search(r"\{closure@([^:}]+):(\d+):(\d+)", ty)
+    if m:
+        for g in crate.fns.values():
+            if g.kind == "closure" and g.root == f.root and getattr(g, "file", None) and str(g.file).endswith(m.group(1).split("/")[-1]) and g.line == int(m.group(2)):
+                out.add(g.id)
+        if out:
+            return out
+    for d in f.whole_defs(l):
+        if d[0] == "assign":
+            rv = d[3]
+            src = op_local(rv[1]) if rv[0] == "use" else place_local(rv[2]) if rv[0] == "ref" else op_local(rv[2]) if rv[0] == "cast" else None
+            out |= _closures_behind(crate, f, src, depth + 1, seen)
+    return out
+
+
 class CallGraph:
     """Crate-local call graph.  edges[f] = list of (bb, callee_id, via) where via is
     'direct' | 'closure-arg' | 'fn-param' | 'spawn'."""
@@ -532,6 +555,16 @@ class CallGraph:
                         edges[f.id].append((bb, k["res"], "spawn" if spawn else "closure-arg"))
                         if local_target:
                             passed_to[local_target].add(k["res"])
+                # closures handed over as trait objects (`&mut |b| ..` coerced to `&mut dyn FnMut(..)`): the closure type is not
+                # among the callee's generic arguments; find it through the unsizing cast of the argument
+                if local_target:
+                    for a in c["args"]:
+                        al = op_local(a)
+                        if al is None or "dyn " not in f.local_ty(al) or not re.search(r"dyn (for<[^>]*> )?(std::ops::)?Fn", f.local_ty(al)):
+                            continue
+                        for cid in _closures_behind(crate, f, al):
+                            edges[f.id].append((bb, cid, "closure-arg"))
+                            passed_to[local_target].add(cid)
         for h, cs in getattr(crate, "helper_passed", {}).items():
             passed_to[h] |= cs
         # a function that forwards its own Fn parameter to a helper hands it the closures it received itself
@@ -677,6 +710,86 @@ def specialise_lock_param_helpers(crate):
     crate._closure_sites = None
 
 
+def splice_cache_accessors(crate):
+    """A stamped cache (a concurrent-map field whose value is a tuple led by u64 stamps) may be looked up and stored through
+    small accessor methods of their own (`cached_x(&self, k)` / `store_x(&self, k, v)`).  The cache rules reason about the
+    function that does both; an accessor with a single calling function is spliced into that caller, so that splitting the
+    lookup and the store out of a fill function changes nothing."""
+    dbs = [a for a in crate.adts.values() if a.get("kind") == "struct" and a["variants"]
+           and sum(1 for f in a["variants"][0]["fields"] if "dashmap::DashMap<" in f["ty"]) >= 6]
+    if not dbs:
+        return
+    db = max(dbs, key=lambda a: sum(1 for f in a["variants"][0]["fields"] if "dashmap::DashMap<" in f["ty"]))
+    def _value_ty(ty):
+        i = ty.find("dashmap::DashMap<")
+        if i < 0:
+            return ""
+        j = i + len("dashmap::DashMap<")
+        depth, parts, cur = 0, [], ""
+        for ch in ty[j:]:
+            if ch in "<(":
+                depth += 1
+            elif ch in ">)":
+                if depth == 0:
+                    break
+                depth -= 1
+            if ch == "," and depth == 0:
+                parts.append(cur.strip())
+                cur = ""
+            else:
+                cur += ch
+        parts.append(cur.strip())
+        return parts[1] if len(parts) > 1 else ""
+    stamped = {f["name"] for f in db["variants"][0]["fields"] if _value_ty(f["ty"]).startswith("(u64, ")}
+    if not stamped:
+        return
+
+    def touches(f):
+        out = set()
+        for _bb, _si, _pl, rv, _sp in f.assigns():
+            if rv[0] == "ref":
+                for o, n in proj_fields(place_projs(rv[2])):
+                    if o == db["path"] and n in stamped:
+                        out.add(n)
+        return out
+    callers = defaultdict(set)
+    for f in crate.real_fns():
+        for _bb, c in f.calls():
+            if c.get("res_local") and c.get("res") in crate.fns:
+                callers[c["res"]].add(f.root)
+    acc = {}
+    for f in crate.real_fns():
+        if f.kind not in ("fn", "method") or len(f.blocks) > 90:
+            continue
+        t = touches(f)
+        if not t or len(callers.get(f.id, ())) != 1:
+            continue
+        # it works on that one cache only: no other field of the database struct is borrowed in it
+        other = set()
+        for _bb, _si, _pl, rv, _sp in f.assigns():
+            if rv[0] == "ref":
+                for o, n in proj_fields(place_projs(rv[2])):
+                    if o == db["path"] and n not in stamped:
+                        other.add(n)
+        if len(t) == 1 and not other and f.id != next(iter(callers[f.id])):
+            acc[f.id] = (t, "accessor")
+    # only when a cache has BOTH a lookup accessor and a store accessor (or one accessor whose caller does the other half)
+    by_caller = defaultdict(list)
+    for fid, (t, kind) in acc.items():
+        by_caller[next(iter(callers[fid]))].append(fid)
+    for caller, hs in by_caller.items():
+        g = crate.fns.get(caller)
+        if g is None:
+            continue
+        hset = set(hs)
+        crate.fns[g.id] = inline_fn(crate, g, depth=1, max_blocks=500, pred=lambda x: x.id in hset)
+        # the accessors are analysed where they were spliced in (their own bodies are skipped by the lock model, like the
+        # helpers that are handed a map by reference)
+        crate.lock_param_helpers = set(getattr(crate, "lock_param_helpers", set())) | hset
+    if by_caller:
+        crate._closure_sites = None
+
+
 def load_crates(facts_dir):
     out = {}
     for lab in ("bin", "lib"):
@@ -684,6 +797,7 @@ def load_crates(facts_dir):
         if os.path.exists(p):
             out[lab] = Crate(p)
             specialise_lock_param_helpers(out[lab])
+            splice_cache_accessors(out[lab])
     return out
 
 
